@@ -9,6 +9,9 @@ package main
 // directions), delivered to the real receivers and re-delivered byte for byte
 // at chosen times: immediately, concurrently, around the expiry of the nonce
 // entry, around the end of the freshness window, after wall-clock steps.
+// Every run starts with freshly constructed receivers; in a share of the runs
+// the first requests a receiver handles in its life arrive together (cold
+// start: every peer reconnects at once, a frame is duplicated on the wire).
 // Oracle (property text only): per (type, sender, nonce) at most one delivery
 // is accepted; a delivery whose timestamp is outside the window is rejected.
 
@@ -153,8 +156,10 @@ func genOffset(r *simrt.Rand) (pm, sec int) {
 	}
 }
 
-// script returns the ops of one request (index i).
-func script(r *simrt.Rand, i int, m Msg) []Op {
+// script returns the ops of one request (index i). With replayOnly the
+// request's first delivery happens elsewhere (cold-start burst) and the script
+// only holds what follows it.
+func script(r *simrt.Rand, i int, m Msg, replayOnly bool) []Op {
 	send := func(n int) Op {
 		o := Op{Op: "send"}
 		for k := 0; k < n; k++ {
@@ -213,8 +218,34 @@ func script(r *simrt.Rand, i int, m Msg) []Op {
 	default: // single delivery near a window edge, replay at the other edge
 		ops = []Op{until("win_start", r.Range(-1, 1), r.Intn(1000)), send(1), until("win_end", r.Range(-1, 2), r.Intn(1000)), send(1)}
 	}
+	if replayOnly {
+		if ops[0].Op == "send" {
+			ops = ops[1:]
+		}
+		has := false
+		for _, o := range ops {
+			has = has || o.Op == "send"
+		}
+		if !has {
+			ops = append(ops, smallWait(), send(1))
+		}
+	}
 	return ops
 }
+
+// receiverOf groups the message types by the replay cache that guards them.
+func receiverOf(t string) string {
+	switch t {
+	case tSync, tForward:
+		return "coordinator"
+	case tCacheInv:
+		return "cacheinv"
+	default:
+		return "edgesync"
+	}
+}
+
+var coordTypes = []string{tSync, tForward}
 
 func genC26(r *simrt.Rand, tier string) any {
 	p := &C26Plan{Salt: uint32(r.Intn(1 << 30)), HCInterval: []int{5, 30, 3600}[r.Intn(3)]}
@@ -231,15 +262,69 @@ func genC26(r *simrt.Rand, tier string) any {
 	if tier == "thorough" && r.Chance(50) {
 		nm = 3 + r.Intn(4) // more requests: more eviction sweeps and interleavings per run
 	}
+	// Cold start: the very first requests of a receiver's life are delivered
+	// concurrently (2-4 deliveries: a request, often its wire duplicate, often
+	// requests of other senders / the other message type behind the same
+	// guard), everything else - in particular the replays of exactly these
+	// requests - follows. The coordinator is the one receiver whose replay
+	// guard is constructed by arc code under test at a time of arc's choosing
+	// (the HTTP handlers get theirs passed in), so it is favoured here.
+	burst := r.Chance(35)
+	inBurst := map[int]bool{}
+	var burstOp Op
+	if burst {
+		burstOp = Op{Op: "send", Msgs: []int{0}}
+		inBurst[0] = true
+		if r.Chance(70) {
+			burstOp.Msgs = append(burstOp.Msgs, 0)
+		}
+		for i := 1; i < nm && len(burstOp.Msgs) < 4; i++ {
+			if r.Chance(60) {
+				burstOp.Msgs = append(burstOp.Msgs, i)
+				inBurst[i] = true
+			}
+		}
+		if len(burstOp.Msgs) == 1 {
+			burstOp.Msgs = append(burstOp.Msgs, 0)
+		}
+		perm := r.Perm(len(burstOp.Msgs))
+		ms := make([]int, len(perm))
+		for k, j := range perm {
+			ms[k] = burstOp.Msgs[j]
+		}
+		burstOp.Msgs = ms
+	}
 	scripts := make([][]Op, nm)
 	for i := 0; i < nm; i++ {
 		m := Msg{Type: enabled[r.Intn(len(enabled))], Sender: r.Intn(2)}
 		m.OffPm, m.OffSec = genOffset(r)
+		if inBurst[i] {
+			if i == 0 && r.Chance(75) {
+				m.Type = coordTypes[r.Intn(len(coordTypes))]
+			}
+			if i > 0 && r.Chance(70) {
+				// same guard as request 0
+				switch receiverOf(p.Msgs[0].Type) {
+				case "coordinator":
+					m.Type = coordTypes[r.Intn(len(coordTypes))]
+				case "edgesync":
+					m.Type = []string{tEdgeFile, tEdgeRec}[r.Intn(2)]
+				default:
+					m.Type = p.Msgs[0].Type
+				}
+			}
+			if r.Chance(60) {
+				m.OffPm, m.OffSec = 0, r.Range(-2, 2)
+			}
+		}
 		p.Msgs = append(p.Msgs, m)
-		scripts[i] = script(r, i, m)
+		scripts[i] = script(r, i, m, inBurst[i])
 	}
 	// initial phase: sub-second position and distance to the first eviction sweep
 	p.Ops = append(p.Ops, Op{Op: "wait", Ref: "sec", Sec: r.Intn(90), Ms: r.Intn(1000)})
+	if burst {
+		p.Ops = append(p.Ops, burstOp)
+	}
 	// interleave the scripts, keeping each script's order
 	for {
 		var live []int
@@ -449,6 +534,15 @@ func runC26(planAny any, cfg simrt.Config) *simkit.Outcome {
 			}
 		}
 		invalidations = w.invalidations
+		// a coordinator that has accepted nonce-protected requests and holds no
+		// replay cache at all: nothing the harness learned about retention applies
+		if w.coord != nil && w.coord.VerifNonceCache() == nil {
+			for mi, ms := range st {
+				if t := p.Msgs[mi].Type; ms.hasAccept && (t == tSync || t == tForward) {
+					harnessFail("the coordinator accepted a %s request and holds no nonce cache afterwards", t)
+				}
+			}
+		}
 	})
 	out.Absorb(res)
 	if len(res.Panics) > 0 {
